@@ -16,7 +16,10 @@ package ndjson
 //@   ensures optional_wraps_second_case: !t.Cases.IsSingle() && t.Cases.IsOptional() ==> result == "_ndjson.OptionalConverter(" + typeConverter(t.Cases[1].Type, contextNamespace, namedType) + ")"
 //@   ensures a_union_is_one_union_converter: !t.Cases.IsSingle() && !t.Cases.IsOptional() ==> hasPrefix(result, "_ndjson.UnionConverter(")
 //@   iteration 0: kinds_of_a_case_are_added_to_the_collection: c.Type != nil ==> next(possibleTypes) == (possibleTypes | lastResult(ndjsoncommon.GetJsonDataType))
-//@   iteration 0: a_null_case_adds_nothing: c.Type == nil ==> next(possibleTypes) == possibleTypes
+// The null case of a union is written as JSON null: it counts as that kind like any other case does (a later case that
+// can be null too - an alias of an optional - then overlaps, and the union needs its tags; the C++ generator counts
+// it the same way, which is what makes the two languages agree on the form).
+//@   iteration 0: the_null_case_adds_the_null_kind: c.Type == nil ==> next(possibleTypes) == (possibleTypes | ndjsoncommon.JsonNull)
 //@   iteration 0: overlap_forces_the_tagged_form: c.Type != nil && (lastResult(ndjsoncommon.GetJsonDataType) & possibleTypes) != 0 ==> next(simplfied) == "False"
 //@   iteration 0: tagged_form_is_final: simplfied == "False" ==> next(simplfied) == "False"
 //@   invariant 0: simplfied == "True" || simplfied == "False"
